@@ -151,17 +151,19 @@ Example ex_memo_policies :
   nth 1 (root_views (run_hevents K1 c1 ops) 6) CCut = nth 1 (root_views c1 6) CCut.
 Proof. vm_compute. repeat split; try reflexivity. intros E; discriminate E. Qed.
 
-(* ---- the hypothesis of copy_sim about fresh keys is needed: the class NAMES list was extended after `a` was created; a.copy()
-   runs __init__ of the CURRENT class and keeps the extra series as an orphan __dict__ entry (not listed in `index`, so no public
-   accessor shows it; the oracle compares the observable state) *)
-Theorem copy_after_class_mutation_has_extra_cell :
+(* ---- repaired by fix eb971db (was the kept finding extra-entry-after-class-NAMES-extended): the class NAMES list is extended
+   after `a` was created; a.copy() runs __init__ of the CURRENT class but drops what the original does not have: the copy shows
+   exactly the original's tree *)
+Example ex_copy_after_class_names_extended_equal :
   let s := run_events K0 (s0 0 None) [EInit 0 (args range_span)] in
   let sm := run_hevents K0 s [HOps 0 [OListAppend C_NAMES 209]] in
-  let s1 := run_hevents K0 sm [HEv (ECopy 1)] in
-  forallb (fun k => has_cell (sh s) 5%nat k) (copy_fresh_keys K0 (sh s) 5%nat) = true /\
+  let s1 := run_hevents K0 sm [HCopyRoute RCopy 1; HCopyRoute RCopyCopy 1; HCopyRoute RDeepCopy 1] in
   forallb (fun k => has_cell (sh sm) 5%nat k) (copy_fresh_keys K0 (sh sm) 5%nat) = false /\
-  nth 2 (root_views s1 3) CCut <> nth 1 (root_views s1 3) CCut.
-Proof. vm_compute. split; [reflexivity|]. split; [reflexivity|]. intros E; discriminate E. Qed.
+  length (sroots s1) = 5%nat /\
+  nth 2 (root_views s1 6) CCut = nth 1 (root_views s1 6) CCut /\
+  nth 3 (root_views s1 6) CCut = nth 1 (root_views s1 6) CCut /\
+  nth 4 (root_views s1 6) CCut = nth 1 (root_views s1 6) CCut.
+Proof. vm_compute. repeat split; reflexivity. Qed.
 
 (* ---- #21 repaired (fixes af303e7 / 28b2a9a): reindex of a traced model (object-dtype `trace` series holding a non-empty Trace)
    onto an overlapping span: no root shares anything with another; the result has its own Trace objects and its own span, also when
@@ -196,16 +198,14 @@ Definition s_cs : state :=
 
 Example ex_copy_sim_hypotheses :
   exists o h' r', nth_error (sh s_cs) 5 = Some o /\ wf (sh s_cs) /\ NoDup (map fst (ocells o)) /\
-    (forall k, In k (copy_fresh_keys K0 (sh s_cs) 5%nat) -> In k (map fst (ocells o))) /\
     copy_M K0 (sh s_cs) 5%nat = Some (h', r').
 Proof.
   destruct (nth_error (sh s_cs) 5) as [o|] eqn:E; [|vm_compute in E; discriminate].
   destruct (copy_M K0 (sh s_cs) 5%nat) as [[h' r']|] eqn:C; [|vm_compute in C; discriminate].
   exists o, h', r'. split; [reflexivity|]. split; [apply wfb_sound; vm_compute; reflexivity|].
   assert (Eo : o = match nth_error (sh s_cs) 5 with Some x => x | None => o end) by (rewrite E; reflexivity).
-  split; [|split; [|reflexivity]].
-  - apply nodupb_sound. rewrite Eo. vm_compute. reflexivity.
-  - apply subsetb_sound. rewrite Eo. vm_compute. reflexivity.
+  split; [|reflexivity].
+  apply nodupb_sound. rewrite Eo. vm_compute. reflexivity.
 Qed.
 
 (* ---- linker: a copy of a linker (with its two submodels) shares nothing with the linker, its submodels or the class *)
@@ -258,7 +258,7 @@ Fixpoint submodels_copyable_seqb (K : consts) (h : heap) (cs : list (Z * val)) :
   | (k, VR l) :: r =>
     match nth_error h l with
     | Some o =>
-      nodupb (map fst (ocells o)) && forallb (fun x => zmem x (map fst (ocells o))) (copy_fresh_keys K h l) &&
+      nodupb (map fst (ocells o)) &&
       match copy_M K h l with Some (h1, _) => submodels_copyable_seqb K h1 r | None => true end
     | None => false
     end
@@ -269,8 +269,8 @@ Lemma submodels_copyable_seqb_sound K : forall cs h, submodels_copyable_seqb K h
 Proof.
   induction cs as [|[k [z|l]] r IH]; intros h H; cbn [submodels_copyable_seqb submodels_copyable_seq] in *; auto.
   destruct (nth_error h l) as [o|] eqn:E; [|discriminate].
-  apply andb_true_iff in H as [H H3]. apply andb_true_iff in H as [H1 H2]. split.
-  - exists o. split; [reflexivity|]. split; [apply nodupb_sound; exact H1 | apply subsetb_sound; exact H2].
+  apply andb_true_iff in H as [H1 H3]. split.
+  - exists o. split; [reflexivity | apply nodupb_sound; exact H1].
   - intros h1 l' Cp. rewrite Cp in H3. apply IH. exact H3.
 Qed.
 
@@ -306,7 +306,6 @@ Example ex_linker_copy_sim_hypotheses :
     nth_error (sh s_lk) lk_root = Some o /\ cell_get KP (ocells o) = Some (VR lk_dict) /\
     nth_error (sh s_lk) lk_dict = Some od /\ okind od = KDict /\ wf (sh s_lk) /\
     NoDup (map fst (ocells o)) /\ submodels_copyable_seq K0 (sh s_lk) (ocells od) /\
-    (forall k, In k (linker_fresh_keys K0 (sh s_lk) lk_root) -> In k (map fst (ocells o))) /\
     linker_copy_M K0 (sh s_lk) lk_root = Some (h', r').
 Proof.
   destruct (nth_error (sh s_lk) lk_root) as [o|] eqn:Eo; [|vm_compute in Eo; discriminate].
@@ -321,8 +320,7 @@ Proof.
   split; [rewrite Od; vm_compute; reflexivity|].
   split; [apply wfb_sound; vm_compute; reflexivity|].
   split; [apply nodupb_sound; rewrite Oo; vm_compute; reflexivity|].
-  split; [apply submodels_copyable_seqb_sound; rewrite Od; vm_compute; reflexivity|].
-  split; [apply subsetb_sound; rewrite Oo; vm_compute; reflexivity | reflexivity].
+  split; [apply submodels_copyable_seqb_sound; rewrite Od; vm_compute; reflexivity | reflexivity].
 Qed.
 
 (* ---- hypotheses of the remaining implications are satisfiable *)
